@@ -17,6 +17,7 @@ struct Ctx {
     operator: Address,
     dest: Address,
     retention: u64,
+    n_init: usize,
     /// Some(outcome) for the configuration whose initial list repeats a set
     dup_construct_accepted: Option<bool>,
 }
@@ -110,14 +111,14 @@ impl Scenario for C08 {
             let accepted = r.is_ok();
             let gw = r.unwrap_or_else(|_| dest.clone());
             return (
-                Ctx { w, gw, keys, operator, dest, retention, dup_construct_accepted: Some(accepted) },
+                Ctx { w, gw, keys, operator, dest, retention, n_init, dup_construct_accepted: Some(accepted) },
                 Model { epoch: 0, advances: 0 },
             );
         }
         let init: Vec<RawSet> = (0..n_init).map(|i| pool(i).raw(&keys)).collect();
         let gw = register_gateway(&w, None, &owner, &operator, &DOMAIN, 0, retention, &init);
         (
-            Ctx { w, gw, keys, operator, dest, retention, dup_construct_accepted: None },
+            Ctx { w, gw, keys, operator, dest, retention, n_init, dup_construct_accepted: None },
             Model { epoch: n_init, advances: 0 },
         )
     }
@@ -127,7 +128,8 @@ impl Scenario for C08 {
         if ctx.dup_construct_accepted.is_some() {
             return v;
         }
-        if m.epoch < self.max_epoch {
+        // (a configuration that starts from a long initial list gets two rotations on top of it)
+        if m.epoch < self.max_epoch.max(ctx.n_init + 2) {
             for by in (1..=m.epoch).rev() {
                 v.push(Act::Rotate { by, bypass: false });
                 v.push(Act::Rotate { by, bypass: true });
@@ -220,7 +222,19 @@ impl Scenario for C08 {
             });
             w.restore(&snap);
             // rotations
-            if m.epoch < self.max_epoch + 1 {
+            // a batch that is already approved, submitted again with this set's proof: the proof is
+            // checked all the same
+            let msg = msg_scval(
+                &Msg { chain: "c".into(), id: format!("again-{}", e), src: "s".into(), dest: 0, payload_hash: [1; 32] },
+                &w.sc_addr(&ctx.dest),
+            );
+            let first = approve(w, &ctx.gw, &ctx.keys, &pool(m.epoch - 1), &DOMAIN, &[msg.clone()]);
+            let c = approve(w, &ctx.gw, &ctx.keys, &pool(e - 1), &DOMAIN, &[msg]);
+            out.expect(first.ok && c.ok == want, "probe.approve_messages-again", || {
+                format!("an approved batch submitted again with the proof of the set of epoch {} at epoch {} retention {}: first ok={}, again ok={} ({}), model {}", e, m.epoch, ctx.retention, first.ok, c.ok, c.err, want)
+            });
+            w.restore(&snap);
+            if m.epoch < self.max_epoch.max(ctx.n_init + 2) + 1 {
                 let c = self.rotate_call(ctx, m, e, false);
                 out.expect(c.ok == (e == m.epoch), "probe.rotate", || {
                     format!("non-bypass rotation by set of epoch {} at epoch {}: ok={} ({})", e, m.epoch, c.ok, c.err)
@@ -248,16 +262,23 @@ fn main() {
             for n in 1..=3usize {
                 cfgs.push((r, n));
             }
+            if r == 1 << 32 || r == u64::MAX {
+                // a long initial list: the oldest sets are 17 epochs old from the start
+                cfgs.push((r, 18));
+            }
             if r == 1 {
                 // n = 0 encodes the repeated-initial-set configuration
                 cfgs.push((r, 0));
             }
         }
+        // windows of 16 and 17 against an initial list of 18 sets
+        cfgs.push((16, 18));
+        cfgs.push((17, 18));
         let s = C08 { cfgs, max_epoch: if thorough { 10 } else { 7 }, max_adv: if thorough { 2 } else { 1 } };
         let mut o = Opts::new(tier, if thorough { 13 } else { 9 });
         o.min_depth = 4;
         o.xcheck = tier == "thorough";
-        o.rule = "retention in {0,1,2,3,7,2^32,2^32+1,u64::MAX} x 1-3 initial sets; all rotation histories where each rotation is authorised by ANY installed set, with and without operator bypass, kept (not rolled back) validate_proof calls by any installed set, plus bounded ledger advancement; explored to fixpoint up to epoch 7 (quick) / 10 (thorough). In every reached state, for EVERY installed set: validate_proof, approve_messages of a fresh id, non-bypass rotation and bypass rotation are executed on a snapshot and compared with `epoch - e <= retention` (non-bypass rotation: e == epoch)".into();
+        o.rule = "retention in {0,1,2,3,7,2^32,2^32+1,u64::MAX} x 1-3 initial sets, and retention in {16,17,2^32,u64::MAX} x 18 initial sets (two rotations on top); all rotation histories where each rotation is authorised by ANY installed set, with and without operator bypass, kept (not rolled back) validate_proof calls by any installed set, plus bounded ledger advancement; explored to fixpoint up to epoch 7 (quick) / 10 (thorough). In every reached state, for EVERY installed set: validate_proof, approve_messages of a fresh id, approve_messages of a batch that is already approved, non-bypass rotation and bypass rotation are executed on a snapshot and compared with `epoch - e <= retention` (non-bypass rotation: e == epoch)".into();
         (s, o)
     });
 }
